@@ -88,3 +88,63 @@ fn rac_plain_english_tiles() {
     }
     println!("RAC-OK plain_english_tiles cases={} nontrivial={} bound=len<=4,alphabet=14", cases, nontrivial);
 }
+
+// URL scanner: fragments that exercise scheme / login / host / port / path / escapes. Runs on a
+// worker thread; if the worker does not finish within the budget the input it is stuck on is
+// reported (non-termination).
+#[test]
+fn rac_url_scanner() {
+    use std::sync::{Arc, Mutex, mpsc};
+    let frags = ["http://", "ftp://", "a", "b.c", "?", ";", "=", "&", "@", "/", ":", "%41", "%4", "8", ".", "-", " "];
+    let current: Arc<Mutex<String>> = Arc::new(Mutex::new(String::new()));
+    let cur2 = current.clone();
+    let (tx, rx) = mpsc::channel::<Result<(u64, u64), String>>();
+    std::thread::spawn(move || {
+        let mut texts: Vec<String> = vec![String::new()];
+        let mut frontier: Vec<String> = vec![String::new()];
+        for _ in 0..5 {
+            let mut next = vec![];
+            for t in &frontier {
+                for f in frags.iter() {
+                    next.push(format!("{}{}", t, f));
+                }
+            }
+            texts.extend(next.iter().cloned());
+            frontier = next;
+        }
+        let mut cases = 0u64;
+        let mut nontrivial = 0u64;
+        for t in &texts {
+            // only texts that start like a URL are interesting for lex_url; the others are cheap
+            let cs: Vec<char> = t.chars().collect();
+            *cur2.lock().unwrap() = t.clone();
+            let r = std::panic::catch_unwind(|| lex_url(&cs));
+            cases += 1;
+            match r {
+                Ok(x) => {
+                    if x.is_some() { nontrivial += 1; }
+                    if !rac_found_ok(cs.len(), &x) {
+                        let _ = tx.send(Err(format!("{{\"lexer\": \"lex_url\", \"text\": {:?}, \"result\": {:?}}}", t, x)));
+                        return;
+                    }
+                }
+                Err(_) => {
+                    let _ = tx.send(Err(format!("{{\"lexer\": \"lex_url\", \"text\": {:?}, \"result\": \"panicked\"}}", t)));
+                    return;
+                }
+            }
+        }
+        let _ = tx.send(Ok((cases, nontrivial)));
+    });
+    match rx.recv_timeout(std::time::Duration::from_secs(120)) {
+        Ok(Ok((cases, nontrivial))) => println!("RAC-OK url_scanner cases={} nontrivial={} bound=<=5-of-17-fragments", cases, nontrivial),
+        Ok(Err(cex)) => {
+            println!("RAC-CEX url_scanner {}", cex);
+            panic!("lex_url contract violated");
+        }
+        Err(_) => {
+            println!("RAC-CEX url_scanner {{\"lexer\": \"lex_url\", \"text\": {:?}, \"result\": \"did not terminate within 120 s\"}}", current.lock().unwrap().clone());
+            panic!("lex_url hangs");
+        }
+    }
+}
